@@ -290,7 +290,7 @@ def run(tier, seed):
             for mod, alg in DECOS:
                 if (mod, alg) == ('klepto', 'inf'):
                     continue
-                tasks.append((tier, mod, alg, tol, deep, 'string', tier == 'thorough'))
+                tasks.append((tier, mod, alg, tol, deep, 'string', True))
     for name in ('simple_round', 'shallow_round', 'deep_round'):
         for tol in TOLS:
             tasks.append(('standalone', tier, name, tol))
